@@ -57,6 +57,10 @@ def jobs(tier):
     js += [{"name": f"persp-{xt}", "kind": "persp", "xtype": xt} for xt in "XL"]
     js += [{"name": "piecewise", "kind": "piecewise"}, {"name": "bilinear", "kind": "bilinear"},
            {"name": "atoms", "kind": "atoms"}]
+    # the dro wrapper classes over the same algebra
+    js += [{"name": f"dro-convex-{xt}", "kind": "convex", "xtype": xt, "front": "dro"} for xt in XTYPES]
+    js += [{"name": f"dro-persp-{xt}", "kind": "persp", "xtype": xt, "front": "dro"} for xt in "XL"]
+    js += [{"name": "dro-piecewise", "kind": "piecewise", "front": "dro"}, {"name": "adaptive-atoms", "kind": "adaptive_atoms"}]
     return js
 
 
@@ -74,9 +78,29 @@ def SOURCES():
 # Convex
 # ------------------------------------------------------------------------------------------
 
+FRONT = "ro"      # "dro": the same obligations on the dro wrapper classes (DecConvex, DecPerspConvex, piecewise over DecAffine)
+
+
+def _new(mat=False):
+    if FRONT == "dro":
+        from ..harness import dro
+        m = dro.Model(2)
+        x = m.dvar(2)
+        y = m.dvar()
+        X = m.dvar((2, 2)) if mat else None
+        return m, x, y, X, m.vt_model
+    m, x, y, X = new_ro(mat=mat)
+    return m, x, y, X, m.rc_model
+
+
+def _aff(c, m, model, shape, cols, name):
+    """an affine operand as the front end hands it to the user (a DecAffine in dro models)"""
+    a = sym_affine(c, model, shape, cols, name)
+    return lp.DecAffine(m, a) if FRONT == "dro" else a
+
+
 def _mk_convex(c, xtype, arbitrary=True):
-    m, x, y, X = new_ro(mat=xtype in "OD")
-    model = m.rc_model
+    m, x, y, X, model = _new(mat=xtype in "OD")
     cv = ATOM[xtype](x, X)
     ns = {"m": m, "model": model, "x": x, "y": y, "cv": cv}
     if arbitrary:
@@ -101,7 +125,7 @@ def _other(c, ns, kind):
     if kind == "array":
         return sym_array(c, oshape, "arr")
     if kind == "affine":
-        return sym_affine(c, model, oshape, [y.first], "oth")
+        return _aff(c, ns["m"], model, oshape, [y.first], "oth")
     if kind == "vars":
         return y
     raise ValueError(kind)
@@ -214,8 +238,7 @@ def convex_ops(xtype, cls_name="Convex", mk=_mk_convex, den=atoms.den_convex, me
 # ------------------------------------------------------------------------------------------
 
 def _mk_persp(c, xtype):
-    m, x, y, X = new_ro()
-    model = m.rc_model
+    m, x, y, X, model = _new()
     z = m.dvar(2)
     cv = rsome.pexp(x, z) if xtype == "X" else rsome.plog(x, z)
     s = c.fresh_real("sign")
@@ -237,9 +260,8 @@ def _persp_same(res, cv, xbar):
 # ------------------------------------------------------------------------------------------
 
 def _mk_pw(c, npieces=2, minof=False):
-    m, x, y, X = new_ro()
-    model = m.rc_model
-    pieces = [sym_affine(c, model, (), [x.first, y.first], f"p{i}") for i in range(npieces)]
+    m, x, y, X, model = _new()
+    pieces = [_aff(c, m, model, (), [x.first, y.first], f"p{i}") for i in range(npieces)]
     pw = rsome.minof(*pieces) if minof else rsome.maxof(*pieces)
     return {"m": m, "model": model, "x": x, "y": y, "pw": pw, "pieces0": pieces, "xbar": valuation(c, model)}
 
@@ -285,7 +307,7 @@ def piecewise_ops():
             def setup(c, kind=kind, minof=minof):
                 ns = _mk_pw(c, 2, minof)
                 ns["o"] = (c.fresh_real("r") if kind == "real" else
-                           sym_affine(c, ns["model"], (), [ns["y"].first], "oth") if kind == "affine" else ns["y"])
+                           _aff(c, ns["m"], ns["model"], (), [ns["y"].first], "oth") if kind == "affine" else ns["y"])
                 return ns
             for opname, f, spec in (
                     ("__add__", lambda ns: ns["pw"] + ns["o"], lambda d, o: d + o),
@@ -306,6 +328,17 @@ def piecewise_ops():
                 [raises_iff("rejects-convex", lambda ns: p_eq(ns["pw"].sign, 1), (ValueError,)),
                  post("means-what-was-written", lambda ns, res: p_iff(
                      mean_pw(res, ns["xbar"]), p_le(views.flat(views.val(ns["o"], ns["xbar"]))[0], den(ns["pw"], ns["xbar"]))))],
+                f"{tag},other={kind}")
+            # the piecewise term on the RIGHT: the comparison is dispatched through the other operand's class
+            run("__ge__ (reflected: other <= pw)", setup, lambda ns: ns["o"] <= ns["pw"],
+                [raises_iff("rejects-convex", lambda ns: p_eq(ns["pw"].sign, 1), (ValueError,)),
+                 post("means-what-was-written", lambda ns, res: p_iff(
+                     mean_pw(res, ns["xbar"]), p_le(views.flat(views.val(ns["o"], ns["xbar"]))[0], den(ns["pw"], ns["xbar"]))))],
+                f"{tag},other={kind}")
+            run("__le__ (reflected: other >= pw)", setup, lambda ns: ns["o"] >= ns["pw"],
+                [raises_iff("rejects-concave", lambda ns: p_eq(ns["pw"].sign, -1), (ValueError,)),
+                 post("means-what-was-written", lambda ns, res: p_iff(
+                     mean_pw(res, ns["xbar"]), p_le(den(ns["pw"], ns["xbar"]), views.flat(views.val(ns["o"], ns["xbar"]))[0])))],
                 f"{tag},other={kind}")
 
         def setup_mul(c, minof=minof):
@@ -379,7 +412,93 @@ def bilinear():
     return out
 
 
+def adaptive_atoms():
+    """A convex atom of an affinely ADAPTIVE decision (y(z) = y0 + Y z) is not a convex function of the decisions alone:
+    every atom must reject it -- at construction or when the constraint is handed to the model -- instead of
+    silently compiling the atom of the intercept."""
+    from ..harness import dro
+    out = []
+    REJ = (ValueError, TypeError, SyntaxError, AttributeError, RuntimeError, NotImplementedError)
+    atoms_ = {
+        "abs": lambda y, x: abs(y) <= 1, "norm1": lambda y, x: rsome.norm(y, 1) <= 1, "norm2": lambda y, x: rsome.norm(y, 2) <= 1,
+        "norminf": lambda y, x: rsome.norm(y, "inf") <= 1, "pnorm3": lambda y, x: rsome.pnorm(y, 3) <= 1,
+        "square": lambda y, x: rsome.square(y) <= 1, "sumsqr": lambda y, x: rsome.sumsqr(y) <= 1,
+        "quad": lambda y, x: rsome.quad(y, np.array([[2.0, 0.5], [0.5, 1.0]])) <= 1, "exp": lambda y, x: rsome.exp(y) <= 3,
+        "log": lambda y, x: rsome.log(y + 3) >= -1, "power3": lambda y, x: rsome.power(y, 3) <= 1,
+        "softplus": lambda y, x: rsome.softplus(y) <= 2, "entropy": lambda y, x: rsome.entropy(y + 3) >= -9,
+        "pexp": lambda y, x: rsome.pexp(y, x + 3) <= 9, "plog": lambda y, x: rsome.plog(y + 3, x + 3) >= -9,
+        "pexp-scale": lambda y, x: rsome.pexp(x, y + 3) <= 9, "gmean": lambda y, x: rsome.gmean(y + 3) >= 0.5,
+        "expcone": lambda y, x: rsome.expcone(x[0] + 5, y[0], 1.0), "rsocone": lambda y, x: rsome.rsocone(y, x[0] + 3, 1.0),
+        "kldiv": lambda y, x: rsome.kldiv(y + 3, np.array([0.5, 0.5]), 0.5),
+        "abs-of-sum-with-static": lambda y, x: abs(y + x) <= 1, "abs-of-slice": lambda y, x: abs(y[0]) <= 1,
+        "maxof-in-plain-constraint": lambda y, x: rsome.maxof(y[0], x[0]) <= 1,
+        # the adaptive block hidden behind a static first block of a concatenation / a multi-argument front end
+        "sumsqr(static, adaptive)": lambda y, x: rsome.sumsqr(x, y) <= 1,
+        "norm(concat(static, adaptive))": lambda y, x: rsome.norm(rsome.concat((x, y)), 2) <= 1,
+        "norm(vec(const, adaptive))": lambda y, x: rsome.norm(rsome.vec(0.5, y[0]), 1) <= 1,
+        "square(rstack(static, adaptive))": lambda y, x: rsome.square(rsome.rstack(x, y)) <= 1,
+        "abs(concat(adaptive, static))": lambda y, x: abs(rsome.concat((y, x))) <= 1,
+    }
+    class Rejected(ValueError):
+        pass
+
+    for front in ("dro", "dro-slice-adapted", "ro"):
+        for name, f in atoms_.items():
+            if front == "ro" and name == "maxof-in-plain-constraint":
+                continue                                  # a robust piecewise constraint over a decision rule is supported in ro models
+            def setup(c, front=front):
+                if front == "ro":
+                    m = ro.Model()
+                    x = m.dvar(2)
+                    y = m.ldr(2)
+                    z = m.rvar(2)
+                    y.adapt(z)
+                else:
+                    m = dro.Model(2)
+                    x = m.dvar(2)
+                    y = m.dvar(2)
+                    z = m.rvar(2)
+                    if front == "dro":
+                        y.adapt(z)
+                    else:
+                        y[0].adapt(z[1])
+                        y[1].adapt(z)
+                    fs = m.ambiguity()
+                    fs.suppset(z <= 1, z >= -1)
+                    m.minsup(rsome.E(x.sum() + y.sum()), fs)
+                if front == "ro":
+                    m.minmax(x.sum() + y.sum(), z <= 1, z >= -1)
+                return {"m": m, "x": x, "y": y, "z": z}
+
+            def call(ns, f=f):
+                try:
+                    k = f(ns["y"], ns["x"])
+                    ns["m"].st(k)
+                    ns["m"].do_math()                  # "raises before a program is compiled"
+                except REJ as e:                       # re-raised under one name (Python itself rejects e.g. abs(DecRule))
+                    raise Rejected(f"{type(e).__name__}: {e}")
+                return k
+            if name == "maxof-in-plain-constraint":
+                continue                                  # maxof pieces affine in z ARE supported (robust piecewise constraint)
+            obs, _ = check_function("rsome.lp:<convex atoms of adaptive decisions>", setup, call,
+                                    [always_raises("rejects-a-convex-atom-of-an-adaptive-decision", (Rejected,))], mode="D",
+                                    label=f"{front},{name}", bounded=True)
+            out += obs
+    return out
+
+
 def run_job(job):
+    global FRONT
+    FRONT = job.get("front", "ro")
+    out = _run_job(job)
+    if FRONT != "ro":
+        for o in out:
+            o["label"] = f"front={FRONT}," + (o.get("label") or "")
+            o["id"] = o["id"].replace("[", f"[front={FRONT},", 1) if "[" in o["id"] else o["id"] + f"[front={FRONT}]"
+    return out
+
+
+def _run_job(job):
     k = job["kind"]
     if k == "convex":
         return convex_ops(job["xtype"])
@@ -389,6 +508,8 @@ def run_job(job):
         return piecewise_ops()
     if k == "bilinear":
         return bilinear()
+    if k == "adaptive_atoms":
+        return adaptive_atoms()
     if k == "atoms":
         return atom_ctors()
     raise ValueError(k)
